@@ -25,7 +25,7 @@ import (
 )
 
 var st = stat.New("C11",
-	"Case = one proxy + a scripted server that answers every request; 1..4 rounds, round = {warm-up call on the live connection, server-side close of kind {right after a response | while idle | reconnect notification (id 0, _reconnect_) then close | abortive close (RST) | listener restart}, wait until the client has observed the close, generated gap from {0,1,10,100,300,500,700,900,1100,2500} ms, then 1..3 concurrent calls with a 1200 ms timeout; optionally a 1150 ms settle period}. Oracle: every call issued after the observed close succeeds (a call that fails or takes >= 1000 ms is a violation; 400..1000 ms is re-run twice before it counts); the server log shows each call's request exactly once and within 400 ms of the call; at most one new connection is opened per close; after the settle period the healthy new connection is not regarded as closed and no further connection was opened. Non-trivial = a call issued < 1 s after an observed close, preceded by >= 1 successful call on the closed connection. Distinct = distinct case JSON.",
+	"Case = one proxy (with or without a registered push callback) + a scripted server that answers every request; 1..4 rounds, round = {warm-up call on the live connection, server-side close of kind {right after a response | while idle | reconnect notification (id 0, _reconnect_) then close after 20 ms | reconnect notification, after which the server stops serving that connection and closes it only 1.5 s later | abortive close (RST) | listener restart}, wait until the client has observed the close, generated gap from {0,1,10,100,300,500,700,900,1100,2500} ms, then 1..3 concurrent calls with a 1200 ms timeout; optionally a 1150 ms settle period}. Oracle: every call issued after the observed close succeeds (a call that fails or takes >= 1000 ms is a violation; 400..1000 ms is re-run twice before it counts); the server log shows each call's request exactly once and within 400 ms of the call; at most one new connection is opened per close; after the settle period the healthy new connection is not regarded as closed and no further connection was opened. Non-trivial = a call issued < 1 s after an observed close, preceded by >= 1 successful call on the closed connection. Distinct = distinct case JSON.",
 	"calls racing with a close the client cannot yet know about (FIN in flight) are excluded by construction: calls are issued only after the transport's closed flag is set",
 	"interleavings of the client's sender/receiver goroutines are sampled through the generated gaps, not enumerated")
 
@@ -39,15 +39,19 @@ type Round struct {
 }
 
 type Case struct {
-	Rounds []Round `json:"rounds"`
+	// PushCallback: the proxy has a push callback registered (SetPushCallback), as clients
+	// of pushing servers do
+	PushCallback bool    `json:"push_callback,omitempty"`
+	Rounds       []Round `json:"rounds"`
 }
 
 func draw(rt *rapid.T) Case {
 	var c Case
+	c.PushCallback = rapid.IntRange(0, 2).Draw(rt, "pushCallback") == 0
 	n := rapid.IntRange(1, 4).Draw(rt, "nrounds")
 	for i := 0; i < n; i++ {
 		c.Rounds = append(c.Rounds, Round{
-			Close:  rapid.SampledFrom([]string{"after-response", "after-response", "idle", "idle", "push", "rst", "restart"}).Draw(rt, "close"),
+			Close:  rapid.SampledFrom([]string{"after-response", "after-response", "idle", "idle", "push", "push-linger", "push-linger", "rst", "restart"}).Draw(rt, "close"),
 			GapMs:  rapid.SampledFrom([]int{0, 1, 10, 100, 300, 500, 700, 900, 1100, 2500}).Draw(rt, "gap"),
 			NCalls: rapid.IntRange(1, 3).Draw(rt, "ncalls"),
 			Settle: rapid.IntRange(0, 3).Draw(rt, "settle") == 0,
@@ -65,9 +69,9 @@ var (
 const callTimeoutMs = 1200
 
 type env struct {
-	srv        *peer.Server
-	sp         *tars.ServantProxy
-	token      uint32
+	srv      *peer.Server
+	sp       *tars.ServantProxy
+	token    uint32
 	closeTok uint32 // the server closes the connection right after replying to this token
 }
 
@@ -112,13 +116,20 @@ func runOnce(c Case) outcome {
 	}
 	defer srv.Shutdown()
 	e := &env{srv: srv}
+	var notified sync.Map // connections that were sent the close notification: the server no longer serves them
 	srv.Handler = func(s *peer.Server, r *peer.Req) {
+		if _, gone := notified.Load(r.Conn); gone {
+			return
+		}
 		s.Reply(r.Conn, r.Version, r.ID, 0, "", "own", 0)
 		if len(r.Buffer) >= 4 && binary.BigEndian.Uint32(r.Buffer) == atomic.LoadUint32(&e.closeTok) {
 			s.CloseConn(r.Conn)
 		}
 	}
 	e.sp = tars.NewServantProxy(comm, fmt.Sprintf("Verif.C11.Obj%d@tcp -h 127.0.0.1 -p %d -t 60000", atomic.AddInt64(&objSeq, 1), srv.Port))
+	if c.PushCallback {
+		e.sp.SetPushCallback(func([]byte) {})
+	}
 
 	checkCall := func(round int, what string, err error, took time.Duration, tok uint32, start time.Time) *outcome {
 		reqs, _, _ := srv.Snapshot()
@@ -169,6 +180,20 @@ func runOnce(c Case) outcome {
 			srv.PushReconnectAll()
 			time.Sleep(20 * time.Millisecond)
 			srv.CloseAllConns()
+		case "push-linger":
+			// what a gracefully stopping server does: notify, stop serving the notified
+			// connections, close them only later (1.5 s)
+			for _, id := range srv.OpenConnIDs() {
+				notified.Store(id, true)
+			}
+			srv.PushReconnectAll()
+			ids := srv.OpenConnIDs()
+			go func() {
+				time.Sleep(1500 * time.Millisecond)
+				for _, id := range ids {
+					srv.CloseConn(id)
+				}
+			}()
 		case "restart":
 			srv.StopListening()
 			srv.CloseAllConns()
@@ -179,10 +204,16 @@ func runOnce(c Case) outcome {
 		}
 		// wait until the client has observed the close
 		dl := time.Now().Add(2 * time.Second)
+		if rd.Close == "push-linger" {
+			// the notification itself is the close event; it needs no more than a loopback
+			// round trip to arrive
+			time.Sleep(100 * time.Millisecond)
+			dl = time.Now()
+		}
 		for !e.clientClosed() && time.Now().Before(dl) {
 			time.Sleep(200 * time.Microsecond)
 		}
-		if !e.clientClosed() {
+		if rd.Close != "push-linger" && !e.clientClosed() {
 			st.Class("close-not-observed-by-client", 1)
 			continue
 		}
